@@ -838,6 +838,11 @@ def calls_under(root, descs=None, vals=None):
             if t is not True:
                 visit(e.get("e"))
             return
+        if k == "match" and e.get("src") == "AwaitDesugar":
+            inner = thir.peel(e["e"])
+            visit(inner["a"][0] if isinstance(inner, dict) and inner.get("k") == "call" and inner.get("a") else e["e"])
+            out.append(e)       # the await itself, after the awaited expression was evaluated
+            return
         if k == "match" and e.get("src") == "Normal":
             visit(e.get("e"))
             sd = desc(e["e"]).lstrip("^")
